@@ -317,7 +317,9 @@ def check_kani_property(prop, spec, tier):
     features = spec.get("features")
     if spec.get("pre"):
         spec["pre"](tier)
-    srcinfo = harness_sources(crate)
+    srcinfo = {}
+    for c in set([crate] + [g["crate"] for g in spec["groups"] if g.get("crate")]):
+        srcinfo.update(harness_sources(c))
     all_results = {}
     metas = []
     inconclusive = []
@@ -327,7 +329,7 @@ def check_kani_property(prop, spec, tier):
             hs = list(g.get("quick", [])) + list(g["thorough_adds"])
         if not hs:
             continue
-        res, meta = run_kani(crate, hs, cbmc_args=g.get("cbmc_args", ()), kani_args=g.get("kani_args", ()),
+        res, meta = run_kani(g.get("crate", crate), hs, cbmc_args=g.get("cbmc_args", ()), kani_args=g.get("kani_args", ()),
                              jobs=g.get("jobs"), harness_timeout=g.get("timeout", 600),
                              mem_gb=g.get("mem_gb", 14), tag="%s-%s" % (prop, g["id"]), features=features)
         meta["group"] = g["id"]
@@ -422,13 +424,14 @@ def check_kani_property(prop, spec, tier):
                 continue
         # genuine counterexample candidate: replay
         log("[%s] counterexample in %s: %s" % (prop, h, "; ".join(f["desc"] for f in r["failed"][:4])))
-        tests = concrete_playback(crate, h, cbmc_args=g.get("cbmc_args", ()), features=features)
+        gcrate = g.get("crate", crate)
+        tests = concrete_playback(gcrate, h, cbmc_args=g.get("cbmc_args", ()), features=features)
         reproduced = False
         how = "none"
         chosen = None
         attempts_all = []
         for t in tests[:4]:
-            ok, how, attempts = native_replay(crate, h, t["bytes"], features=features)
+            ok, how, attempts = native_replay(gcrate, h, t["bytes"], features=features)
             attempts_all.append({"check": t["check"], "attempts": attempts})
             if ok:
                 reproduced, chosen = True, t
@@ -438,7 +441,7 @@ def check_kani_property(prop, spec, tier):
         hh = hashlib.sha1((h + json.dumps(r["failed"], sort_keys=True)).encode()).hexdigest()[:10]
         rpath = os.path.join(rdir, "%s-%s-%s.json" % (prop, h.split("::")[-1], hh))
         with open(rpath, "w") as f:
-            json.dump({"property": prop, "crate": crate, "features": features, "harness": h,
+            json.dump({"property": prop, "crate": gcrate, "features": features, "harness": h,
                        "failed_checks": r["failed"], "bytes": (chosen or (tests[0] if tests else {"bytes": []}))["bytes"],
                        "all_tests": tests, "reproduced": reproduced, "reproduced_in": how, "attempts": attempts_all,
                        "repo": repo_state()}, f, indent=1)
